@@ -63,6 +63,12 @@ MUTANTS = [
      "return (d[len(d)-1] & 0x7f) != 0", "return d[len(d)-1] != 0"),
     ("M24", "P2SH: scriptSig need not be push-only", "lib/script/script.go",
      "\t\tif !btc.IsPushOnly(sigScr) {\n\t\t\tif DBG_ERR {\n\t\t\t\tfmt.Println(\"P2SH is not push only\")", "\t\tif false && !btc.IsPushOnly(sigScr) {\n\t\t\tif DBG_ERR {\n\t\t\t\tfmt.Println(\"P2SH is not push only\")"),
+    ("M25", "F2 re-opened: undefined taproot hash type / SINGLE without output signs the all-zero digest", "lib/script/checker.go",
+     "\tif sh == nil {\n", "\tif sh == nil {\n\t\tsh = make([]byte, 32)\n\t}\n\tif false {\n"),
+    ("M26", "F1 re-opened: delSig matches only the direct-push form (length byte) of the signature", "lib/script/script.go",
+     "\tcase len(sig) <= 0xff:\n\t\tpush_sig_scr = append(push_sig_scr, btc.OP_PUSHDATA1, byte(len(sig)))", "\tcase len(sig) <= 0xff:\n\t\tpush_sig_scr = append(push_sig_scr, byte(len(sig)))"),
+    ("M27", "CHECKSIGADD adds one even for an empty signature", "lib/script/script.go",
+     "\t\t\t\tif success {\n\t\t\t\t\tnum++", "\t\t\t\tif success || len(sig) == 0 {\n\t\t\t\t\tnum++"),
     ("M12", "P2SH-witness scriptSig exactness check dropped", "lib/script/script.go",
      "if !bytes.Equal(sigScr, bt.Bytes()) {", "if false && !bytes.Equal(sigScr, bt.Bytes()) {"),
 ]
@@ -113,7 +119,7 @@ def run(m, scale):
         shutil.rmtree(tmp, ignore_errors=True)
 
 
-if __name__ == "__main__":
+if __name__ == "__main__" and "--repo-tests" not in sys.argv:
     want = [a for a in sys.argv[1:] if not a.startswith("--")]
     scale = float(os.environ.get("MUT_SCALE", "1"))
     for m in MUTANTS:
@@ -121,3 +127,35 @@ if __name__ == "__main__":
             continue
         mid, what, res, n = run(m, scale)
         print("%s  %s\n     -> %s" % (mid, what, res), flush=True)
+
+
+def repo_tests():
+    """--repo-tests: do the repository's own tests still pass with each mutant applied (overlay)?"""
+    base = None
+    for m in [None] + MUTANTS:
+        tmp = tempfile.mkdtemp(prefix="c01mut-")
+        try:
+            args = ["go", "test", "-vet=off", "-count=1"]
+            name = "baseline"
+            if m is not None:
+                mid, what, rel, old, new = m
+                name = mid
+                src = open(os.path.join(REPO, rel)).read()
+                if old is None or src.count(old) != 1:
+                    continue
+                mf = os.path.join(tmp, os.path.basename(rel))
+                open(mf, "w").write(src.replace(old, new))
+                ov = os.path.join(tmp, "overlay.json")
+                json.dump({"Replace": {os.path.join(REPO, rel): mf}}, open(ov, "w"))
+                args += ["-overlay", ov]
+            p = subprocess.run(args + ["./lib/script", "./lib/btc", "./lib/secp256k1"], cwd=REPO, env=ENV, stdout=subprocess.PIPE, stderr=subprocess.STDOUT, text=True)
+            fails = sorted(l.split()[2] for l in p.stdout.splitlines() if l.startswith("--- FAIL"))
+            if m is None:
+                base = fails
+            print("%-8s failing tests: %s%s" % (name, fails, "" if fails == base else "   <-- differs from baseline"), flush=True)
+        finally:
+            shutil.rmtree(tmp, ignore_errors=True)
+
+
+if __name__ == "__main__" and "--repo-tests" in sys.argv:
+    repo_tests()
